@@ -14,6 +14,7 @@ import HavocVerif.Driver.C13
 import HavocVerif.Driver.C14
 import HavocVerif.Driver.C15
 import HavocVerif.Driver.C16
+import HavocVerif.Driver.C17
 import HavocVerif.Driver.C18
 import HavocVerif.Driver.C20
 /-
@@ -48,6 +49,7 @@ def stepperFor (prop : String) : Option Stepper :=
   | "C14" => some (stateless DriverC14.step)
   | "C15" => some ⟨DriverC15.St, {}, DriverC15.step⟩
   | "C16" => some ⟨DriverC16.St, {}, DriverC16.step⟩
+  | "C17" => some (stateless DriverC17.step)
   | "C18" => some (stateless DriverC18.step)
   | "C20" => some (stateless DriverC20.step)
   | _ => none
